@@ -124,6 +124,25 @@ int main ()
           else if (kind == "se") { Stokes< Estimate<double> > d; ss >> d; for (unsigned j=0;j<4;j++) if (!same (d[j].get_value(), v[j])) bad++; }
           if (ss.fail()) failed = 1; }
         o = " " + std::to_string (bad) + " " + std::to_string (failed); }
+      // oracle: a stream that has failed stays failed, and extraction from a failed stream changes nothing.
+      //  pair text: `ss >> a >> b`; when the first extraction fails, b keeps its value and the stream is still failed
+      //  pre text:  failbit set by the caller before the extraction of an Estimate, a Vector, a Stokes, a Vector of Estimate, a Basis
+      //  vec3 / stokes text: a container of Estimate whose text has one malformed element (generated as such): the stream fails
+      // Output: number of violations
+      else if (op == "o.c19.afterfail") { std::string kind = a.next(); std::string text = dec (a.next()); unsigned bad = 0;
+        auto unchanged = [] (const Estimate<double>& e) { return e.get_value() == SV && e.get_variance() == SVAR; };
+        if (kind == "pair") { std::stringstream ss (text); Estimate<double> x (SV, SVAR), y (SV, SVAR); ss >> x; bool f1 = ss.fail(); ss >> y;
+          if (f1) { if (!unchanged (y)) bad++; if (!ss.fail()) bad++; } }
+        else if (kind == "pre") {
+          { std::stringstream ss (text); ss.setstate (std::ios::failbit); Estimate<double> e (SV, SVAR); ss >> e; if (!unchanged (e)) bad++; if (!ss.fail()) bad++; }
+          { std::stringstream ss (text); ss.setstate (std::ios::failbit); Vector<2,double> v (SV, SV); ss >> v; if (v[0] != SV || v[1] != SV) bad++; if (!ss.fail()) bad++; }
+          { std::stringstream ss (text); ss.setstate (std::ios::failbit); Stokes<double> v (SV, SV, SV, SV); ss >> v; if (v[0] != SV || v[3] != SV) bad++; if (!ss.fail()) bad++; }
+          { std::stringstream ss (text); ss.setstate (std::ios::failbit); Vector<2, Estimate<double> > v; v[0] = v[1] = Estimate<double> (SV, SVAR); ss >> v; if (!unchanged (v[0]) || !unchanged (v[1])) bad++; if (!ss.fail()) bad++; }
+          { std::stringstream ss (text); ss.setstate (std::ios::failbit); Signal::Basis b = Signal::Circular; ss >> b; if (b != Signal::Circular) bad++; if (!ss.fail()) bad++; } }
+        else if (kind == "vec3") { std::stringstream ss (text); Vector<3, Estimate<double> > v; ss >> v; if (!ss.fail()) bad++; }
+        else if (kind == "stokes") { std::stringstream ss (text); Stokes< Estimate<double> > v; ss >> v; if (!ss.fail()) bad++; }
+        else throw std::runtime_error ("protocol:kind");
+        o = " " + std::to_string (bad); }
       else { std::cout << "err unknown-op\n"; continue; }
       std::cout << "ok" << o << "\n";
     }
